@@ -50,11 +50,13 @@ func init() {
 			"equiv: one case per H (Copy returns; dump(O)=dump(C)=dump(C2)=dump(R)); non-trivial when H is non-empty. "+
 			"heap: one case per H and runtime pair (E5 intersection of Go heap graphs vs allow-list); non-trivial when H is non-empty. "+
 			"isolate: one case per (H, mutation M applicable to H (%d mutations: per-ingredient ones when the ingredient is in H, 6 generic ones for |H| <= 1 quick / <= 2 thorough), side mutated in {O,C,C2}): result and dump of the mutated side equal those of replay+M, the dumps of the other sides (its pair partners; both other runtimes in thorough for |H| <= 2) are unchanged; "+
-			"non-trivial when M changes the dump of the replayed runtime.", len(ingredients), len(mutations)),
+			"non-trivial when M changes the dump of the replayed runtime. "+
+			"config: one case per (configuration set on O before Copy in stack depth limit {unset,8,40,200} x stack trace limit {unset,0,3,20} x random source {unset, constant} x debugger handler {unset, recording}; probe functions defined before Copy / by the probe; one of {none,O,C,C2} re-configured after both copies; probe in e.stack of an Error thrown 5/15/25 calls deep, recursion depth reached, JSON nesting, Math.random, debugger statements): every side that was not re-configured gives the result of the replayed runtime R (same setters, never copied); non-trivial when the configuration is the default one or changes the probe's result on R.", len(ingredients), len(mutations)),
 		Families: []engine.Family{
 			{Name: "equiv", Run: runEquiv},
 			{Name: "heap", Run: runHeap},
 			{Name: "isolate", Run: runIsolate},
+			{Name: "config", Run: runConfig},
 		},
 		Assumptions: []string{
 			"the replayed runtime R (otto.New + same programs, never copied) is the reference: equivalence and post-mutation state are differential against R, so a defect that affects fresh runtimes and copies alike is invisible here (it belongs to C01/C07)",
